@@ -291,3 +291,52 @@ def poison(core):
 def unpoison(core):
     core.__dict__.pop('hash', None)
     core.__dict__.pop('id', None)
+
+
+# ---- C13: the shard of a key does not depend on which keys were routed before (FanoutCache built by the real __init__)
+
+class _RecCache:
+    made = []
+
+    def __init__(self, directory=None, timeout=60, disk=None, **settings):
+        self.directory, self.settings = directory, settings
+        core, fs, root = ch_env.setup()
+        self.disk = core.Disk(root, 0, 4)
+        if ch_env.MODE == 'model':
+            core.zlib.adler32 = lambda data, value=1: (sum(data) + 1000 * len(data) + value) & 0xFFFFFFFF
+
+
+def _fanout(shards):
+    m = ch_env.L()
+    old = m.fanout.Cache
+    m.fanout.Cache = _RecCache
+    try:
+        return m.fanout.FanoutCache('/m', shards=shards)
+    finally:
+        m.fanout.Cache = old
+
+
+POOL = [0, 1, -1, 2, 2 ** 53]
+
+
+def route_history_independent(ai: int, variant: int, si: int) -> bool:
+    """
+    pre: 0 <= ai <= 4 and 0 <= variant <= 3 and 0 <= si <= 4
+    post: _
+    """
+    a = pick(POOL, ai)
+    shards = pick([1, 2, 3, 8, 13], si)
+    # keys that Python considers equal but the cache stores as distinct entries (or as one entry): routing the first
+    # must not influence the shard of the second
+    if variant == 0:
+        k1, k2 = a, float(a)
+    elif variant == 1:
+        k1, k2 = (a, 'u'), (float(a), 'u')
+    elif variant == 2:
+        k1, k2 = 1, True
+    else:
+        k1, k2 = (float(a), 'u'), (a, 'u')
+    fc = _fanout(shards)
+    fresh = _fanout(shards)
+    fc._hash(k1)
+    return fc._hash(k2) % shards == fresh._hash(k2) % shards and fc._hash(k2) == fresh._shards[0].disk.hash(k2)
